@@ -27,8 +27,6 @@ def main():
     dirs = sorted(d for d in os.listdir(SEEDED) if os.path.isdir(os.path.join(SEEDED, d)))
     if args:
         dirs = [d for d in dirs if any(a in d for a in args)]
-    for x in [a.split('=', 1)[1] for a in sys.argv[1:] if a.startswith('--exclude=')]:
-        dirs = [d for d in dirs if x not in d]
     assert sh('git -C /repo status --porcelain -- algopy')[1].strip() == '', 'repo not clean'
     head = sh('git -C /repo rev-parse --short HEAD')[1].strip()
     missed = []
